@@ -218,8 +218,9 @@ Token::firstCharacterOptions Token::analyzeFirstCharacter(RangeToken* const rang
 
                 ret = getChild(i)->analyzeFirstCharacter(rangeTok, options, tokFactory);
 
+                // one alternative that can start with anything decides
                 if (ret == FC_ANY)
-                    break;
+                    return FC_ANY;
                 else
                     hasEmpty = true;
             }
@@ -229,8 +230,9 @@ Token::firstCharacterOptions Token::analyzeFirstCharacter(RangeToken* const rang
     case T_NONGREEDYCLOSURE:
         {
             Token* tok = getChild(0);
-            if (tok)
-                tok->analyzeFirstCharacter(rangeTok, options, tokFactory);
+            if (tok
+                && tok->analyzeFirstCharacter(rangeTok, options, tokFactory) == FC_ANY)
+                return FC_ANY;
             return FC_CONTINUE;
         }
     case T_DOT:
